@@ -36,7 +36,11 @@ Definition key_kept (vs : list (N * N)) (k : expr) : bool :=
 Definition filter_map (s : smap) (vs : list (N * N)) : smap :=
   filter (fun kv => key_kept vs (fst kv)) s.
 
-(* walk_replace_or_identity: look the ORIGINAL node up; otherwise IdentityDagWalker's rebuild from the children's results *)
+(* The key test.  Since fix 1ac14af `_push_with_children_to_stack` looks the ORIGINAL node up before pushing its
+   children: a key is memoised to its value at once and its children are never visited (before the fix the children
+   were walked first and their results discarded by walk_replace_or_identity, so an exception while rebuilding a child
+   of a key escaped).  For a node that is not a key, walk_replace_or_identity looks it up again (None) and returns
+   IdentityDagWalker's rebuild from the children's results.  In a pure total model the two orders are the same term. *)
 Definition replace_or_identity (s : smap) (original rebuilt : expr) : expr :=
   match lookup s original with
   | Some v => v
